@@ -2110,10 +2110,9 @@ def main_ts():
     return 0
 
 
-INPUTS = ["muduo/base/Date.cc", "muduo/base/Date.h", "muduo/base/TimeZone.cc", "muduo/base/TimeZone.h", "muduo/base/Timestamp.cc",
-          "muduo/base/Timestamp.h", "muduo/net/Endian.h", "muduo/net/SocketsOps.cc", "muduo/net/SocketsOps.h", "muduo/net/InetAddress.cc",
-          "muduo/net/InetAddress.h", "muduo/base/Types.h", "muduo/base/copyable.h", "muduo/base/StringPiece.h"]
-OUTPUTS = ["coq/Gen_C20.v", "coq/Gen_C20Net.v", "coq/Gen_C20Tz.v", "coq/Gen_C20Ts.v"]
+TUS = ["muduo/base/Date.cc", "muduo/base/Date.h", "muduo/base/TimeZone.cc", "muduo/base/Timestamp.cc", "muduo/base/Timestamp.h",
+       "muduo/net/Endian.h", "muduo/net/SocketsOps.cc", "muduo/net/InetAddress.cc"]
+OUTPUTS = ["coq/Gen_C20.v", "coq/Gen_C20Net.v", "coq/Gen_C20Tz.v", "coq/Gen_C20Ts.v", "coq/Gen_C20Tzif.v"]
 
 
 def _digest(paths):
@@ -2129,37 +2128,595 @@ def _digest(paths):
     return h.hexdigest()
 
 
-def run_all():
-    """The four translations are pure functions of the listed sources and of the translator itself: when the
-    digest of all of them and of the four outputs is the one recorded by the last complete run, the outputs
-    are already what a regeneration would write (and the FALLBACK lines of that run are repeated)."""
+def _all_inputs():
+    """Every file clang reads for the translated translation units of the CURRENT tree (VERIF_REPO): the
+    preprocessor's own dependency list (`clang++ -M`, same flags as the AST dump), system headers included,
+    recomputed on every run; plus the translator itself.  None if the list cannot be obtained."""
+    import subprocess
+    files = set()
+    for tu in TUS:
+        path = os.path.join(cxxast.REPO, tu)
+        cmd = ["clang++", "-std=c++11", "-I" + cxxast.REPO, "-w", "-M", "-x", "c++", path]
+        try:
+            pr = subprocess.run(cmd, stdout=subprocess.PIPE, stderr=subprocess.PIPE, timeout=120)
+        except Exception:  # noqa
+            return None
+        if pr.returncode != 0:
+            return None
+        toks = pr.stdout.decode("utf-8", "replace").replace("\\\n", " ").split()
+        for t in toks[1:]:
+            files.add(os.path.realpath(t))
+        files.add(os.path.realpath(path))
     here = os.path.dirname(os.path.abspath(__file__))
-    import glob
-    hdrs = sorted(glob.glob(os.path.join(cxxast.REPO, "muduo/base/*.h")) + glob.glob(os.path.join(cxxast.REPO, "muduo/net/*.h")))
-    ins = sorted(set([os.path.join(cxxast.REPO, f) for f in INPUTS] + hdrs)) + [os.path.join(here, "gen_C20.py"), os.path.join(here, "cxxast.py")]
+    return sorted(files) + [os.path.join(here, "gen_C20.py"), os.path.join(here, "cxxast.py")]
+
+
+def run_all():
+    """The translations are pure functions of the files clang reads and of the translator.  The digest of
+    every one of those files, byte for byte, of the CURRENT source tree is computed on every run; only when it
+    and the digest of the outputs equal what the last complete run recorded are the outputs left as they are
+    (and the FALLBACK lines of that run repeated).  Any edit of any input -- Date.cc, a muduo header, a system
+    header -- or of an output forces a regeneration."""
     outs = [os.path.join(cxxast.ROOT, f) for f in OUTPUTS]
     stampdir = os.path.join(cxxast.ROOT, "_work")
     stamp = os.path.join(stampdir, "gen_C20.stamp")
-    key = cxxast.REPO + "\n" + _digest(ins)
-    try:
-        old = open(stamp).read().split("\n---\n")
-        if len(old) == 3 and old[0] == key and old[1] == _digest(outs):
-            sys.stdout.write(old[2])
-            return 0
-    except OSError:
-        pass
+    ins = _all_inputs()
+    key = None if ins is None else os.path.realpath(cxxast.REPO) + "\n" + _digest(ins)
+    if key is not None:
+        try:
+            old = open(stamp).read().split("\n---\n")
+            if len(old) == 3 and old[0] == key and old[1] == _digest(outs):
+                sys.stdout.write(old[2])
+                return 0
+        except OSError:
+            pass
     import io, contextlib
     buf = io.StringIO()
     with contextlib.redirect_stdout(buf):
-        rc = main() or main_net() or main_tz() or main_ts()
+        rc = 0
+        for part in (main, main_net, main_tz, main_ts, main_tzif):
+            rc = part() or rc
     sys.stdout.write(buf.getvalue())
-    try:
-        os.makedirs(stampdir, exist_ok=True)
-        with open(stamp, "w") as f:
-            f.write(key + "\n---\n" + _digest(outs) + "\n---\n" + buf.getvalue())
-    except OSError:
-        pass
+    if key is not None:
+        try:
+            os.makedirs(stampdir, exist_ok=True)
+            with open(stamp, "w") as f:
+                f.write(key + "\n---\n" + _digest(outs) + "\n---\n" + buf.getvalue())
+        except OSError:
+            pass
     return rc
+
+
+# ==========================================================================================
+# fifth output: coq/Gen_C20Tzif.v -- the TZif reader itself: detail::File::readInt64 / readInt32 / readUInt8 /
+# readBytes / skip, detail::readDataBlock and detail::readTimeZoneFile translated statement by statement into a
+# small reader monad.  What stays library semantics (C20_TzifModel: `readBytes` = fread of exactly n bytes or a
+# short read, `skip` = fseek(SEEK_CUR), `addTransitions` = the loop over Data::addTransition with vector::at,
+# the cursor) is C / libstdc++ behaviour, not muduo code.
+#   rres A  = ROk value cursor | RThrow (std::logic_error and its subclasses) | RUndef (outside the C++ semantics)
+#   dbres   = DbTrue table | DbFalse | DbThrow | DbUndef
+# Statement forms understood (anything else: FALLBACK, the reference reader of C20_TzifModel is emitted):
+#   const T x = <int expression>;                 let
+#   const T x = f.readIntN() / readUInt8();       rbind
+#   string s = f.readBytes(n); s = f.readBytes(n); f.readBytes(n); data->abbreviation = f.readBytes(n);
+#   if (<count test>) return false;   if (s != "lit") throw std::logic_error(..);   if (s == "lit") {..} else {..}
+#   std::vector<T> v;  v.reserve(n);              a negative n throws std::length_error
+#   for (int i = 0; i < N; ++i) <body>  with body one of: push_back of `v1 ? readInt32 : readInt64`; push_back of
+#       a readUInt8 local; gmtoff/isdst/abbrind + data->addLocalTime; data->addTransition(trans[i], localtimes[i])
+#   f.skip(e);  if (!v1) { data->tzstring = f.readToEnd(); }  (never throws: no effect on the result)
+#   return true / false / readDataBlock(f, data, flag);   try { } catch (std::logic_error&) { } return false;
+
+TZIF_PRELUDE = """From Coq Require Import List ZArith Bool Arith.
+From Coq.Strings Require Import Byte.
+From Muduo Require Import Base_Bytes Gen_C20Net C20_Model Gen_C20Tz C20_TzifModel.
+Import ListNotations.
+Local Open Scope Z_scope.
+Local Open Scope bool_scope.
+
+Inductive rres (A : Type) := ROk (a : A) (c : cur) | RThrow | RUndef.
+Arguments ROk {A} a c.
+Arguments RThrow {A}.
+Arguments RUndef {A}.
+Inductive dbres := DbTrue (tb : tzdata) | DbFalse | DbThrow | DbUndef.
+
+Definition rbind {A} (r : rres A) (k : A -> cur -> dbres) : dbres :=
+  match r with ROk a c => k a c | RThrow => DbThrow | RUndef => DbUndef end.
+Definition rbind' {A B} (r : rres A) (k : A -> cur -> rres B) : rres B :=
+  match r with ROk a c => k a c | RThrow => RThrow | RUndef => RUndef end.
+(* n reads in a row (a for loop whose body reads one item and appends it) *)
+Fixpoint rmany {A} (rd1 : cur -> rres A) (n : nat) (c : cur) : rres (list A) :=
+  match n with
+  | O => ROk [] c
+  | S k => rbind' (rd1 c) (fun x c1 => rbind' (rmany rd1 k c1) (fun xs c2 => ROk (x :: xs) c2))
+  end.
+(* value of an N-bit object: its bytes as they lie in memory (little-endian host), as unsigned / as signed *)
+Definition obj_u (b : list byte) : Z := be_decode (rev b).
+Definition sgn (w : Z) (x : Z) : Z := if x <? 2 ^ (w - 1) then x else x - 2 ^ w.
+"""
+
+TZIF_TWIN = """(* FALLBACK: the reference reader *)
+Definition tzif_parse_g (file : list byte) : tzres := tzif_parse file.
+"""
+
+
+def main_tzif():
+    rel = "muduo/base/TimeZone.cc"
+    out = ["(* GENERATED by lib/gen_C20.py (main_tzif) from the current muduo sources (VERIF_REPO) -- do not edit *)", TZIF_PRELUDE]
+
+    def method(name):
+        res = []
+        for d in cxxast.dump(rel, "muduo::detail::File"):
+            for n in cxxast.walk(d):
+                if n.get("kind") == "CXXMethodDecl" and n.get("name") == name and any(c.get("kind") == "CompoundStmt" for c in kids(n)):
+                    res.append(n)
+        if len(res) != 1:
+            raise Untranslatable("File::%s: %d definitions" % (name, len(res)))
+        return res[0]
+
+    def calls_named(n, name):
+        return [c for c in cxxast.walk(n) if c.get("kind") == "CallExpr" and cxxast.strip(kids(c)[0]).get("referencedDecl", {}).get("name") == name]
+
+    def throws(n):
+        return any(c.get("kind") == "CXXThrowExpr" for c in cxxast.walk(n)) and \
+            any("logic_error" in c.get("type", {}).get("qualType", "") for c in cxxast.walk(n) if c.get("kind") == "CXXConstructExpr")
+
+    WID = {"int64_t": 64, "long": 64, "int32_t": 32, "int": 32, "uint8_t": 8, "unsigned char": 8,
+           "__uint64_t": 64, "__uint32_t": 32, "__uint16_t": 16, "uint64_t": 64, "uint32_t": 32, "unsigned long": 64, "unsigned int": 32}
+    SIGNED = ("int64_t", "long", "int32_t", "int")
+
+    def szof(n):
+        n = cxxast.strip(n)
+        if n.get("kind") == "UnaryExprOrTypeTraitExpr" and n.get("name") == "sizeof":
+            t = base_type((n.get("argType") or {}).get("qualType", ""))
+            if not t and kids(n):
+                t = base_type(cxxast.strip(kids(n)[0]).get("type", {}).get("qualType", ""))
+            if t in WID:
+                return WID[t] // 8
+        return cxxast.const_eval(n)
+
+    def srcc(fn):
+        return " ".join(re.sub(r"//[^\n]*", "", cxxast.src_text(fn, rel)).split()).replace("*)", "* )").replace("(*", "( *")[:2500]
+
+    def scalar(name):
+        """T x = 0; ssize_t nr = ::fread(&x, 1, sizeof(T), fp_); if (nr != sizeof(T)) throw std::logic_error(..); return E(x);"""
+        fn = method(name)
+        st = kids(cxxast.body(fn))
+        if len(st) != 4 or st[0].get("kind") != "DeclStmt" or st[1].get("kind") != "DeclStmt" or st[2].get("kind") != "IfStmt" or st[3].get("kind") != "ReturnStmt":
+            raise Untranslatable("File::%s: statement shape" % name)
+        xv, nrv = kids(st[0])[0], kids(st[1])[0]
+        xt = base_type(xv.get("type", {}).get("qualType", ""))
+        if xt not in WID or cxxast.const_eval(kids(xv)[0]) != 0:
+            raise Untranslatable("File::%s: object declaration" % name)
+        w = WID[xt]
+        fr = calls_named(nrv, "fread")
+        if len(fr) != 1:
+            raise Untranslatable("File::%s: fread" % name)
+        a = kids(fr[0])
+        tgt = cxxast.strip(a[1])
+        if tgt.get("kind") != "UnaryOperator" or tgt.get("opcode") != "&" or cxxast.strip(kids(tgt)[0]).get("referencedDecl", {}).get("name") != xv["name"]:
+            raise Untranslatable("File::%s: fread target" % name)
+        if cxxast.const_eval(a[2]) != 1 or szof(a[3]) != w // 8 or not [m for m in cxxast.find(a[4], "MemberExpr") if m.get("name") == "fp_"]:
+            raise Untranslatable("File::%s: fread arguments" % name)
+        c = cxxast.strip(kids(st[2])[0])
+        if c.get("kind") != "BinaryOperator" or c.get("opcode") != "!=" or cxxast.strip(kids(c)[0]).get("referencedDecl", {}).get("name") != nrv["name"] \
+           or szof(kids(c)[1]) != w // 8 or not throws(kids(st[2])[1]) or len(kids(st[2])) != 2:
+            raise Untranslatable("File::%s: short-read test" % name)
+
+        def ex(n):
+            k = n.get("kind")
+            ks = kids(n)
+            qt = base_type(n.get("type", {}).get("qualType", ""))
+            if k in ("ParenExpr",):
+                return ex(ks[0])
+            if k in ("ImplicitCastExpr", "CStyleCastExpr", "CXXStaticCastExpr"):
+                inner = ex(ks[0])
+                ck = n.get("castKind")
+                if ck in ("LValueToRValue", "NoOp"):
+                    return inner
+                if ck == "IntegralCast" and qt in WID:
+                    u = "(wrap_u %d %s)" % (WID[qt], inner)
+                    return "(sgn %d %s)" % (WID[qt], u) if qt in SIGNED else u
+                raise Untranslatable("File::%s: cast %s to %s" % (name, ck, qt))
+            if k == "DeclRefExpr" and n.get("referencedDecl", {}).get("name") == xv["name"]:
+                return "(sgn %d x)" % w if xt in SIGNED else "x"
+            if k == "CallExpr":
+                nm = cxxast.strip(ks[0]).get("referencedDecl", {}).get("name") or ""
+                m = re.match(r"__bswap_(16|32|64)$", nm)
+                if m and len(ks) == 2:
+                    return "(bswap_%s %s)" % (m.group(1), ex(ks[1]))
+                if re.match(r"__uint(16|32|64)_identity$", nm) and len(ks) == 2:
+                    return "(uint_identity %s)" % ex(ks[1])
+            raise Untranslatable("File::%s: returned expression (%s)" % (name, k))
+        rt = base_type(fn.get("type", {}).get("qualType", "").split("(")[0])
+        e = ex(kids(st[3])[0])
+        if rt not in WID:
+            raise Untranslatable("File::%s: return type" % name)
+        txt = "(* %s *)\n" % srcc(fn)
+        txt += "Definition File_%s (c : cur) : rres Z :=\n  match readBytes %d c with\n  | Some (b, c') => let x := obj_u b in ROk %s c'\n  | None => RThrow\n  end.\n" % (name, w // 8, e)
+        return txt
+
+    def readbytes():
+        """char buf[n]; ssize_t nr = ::fread(buf, 1, n, fp_); if (nr != n) throw ...; return string(buf, n);"""
+        fn = method("readBytes")
+        ps = [p_ for p_ in kids(fn) if p_.get("kind") == "ParmVarDecl"]
+        st = kids(cxxast.body(fn))
+        if len(ps) != 1 or len(st) != 4:
+            raise Untranslatable("File::readBytes: shape")
+        n_ = ps[0]["name"]
+        bv, nrv = kids(st[0])[0], kids(st[1])[0]
+        if not re.match(r"char\[%s\]$" % re.escape(n_), bv.get("type", {}).get("qualType", "")):
+            raise Untranslatable("File::readBytes: buffer is not char[n]")
+        fr = calls_named(nrv, "fread")
+        a = kids(fr[0]) if len(fr) == 1 else []
+        if not a or cxxast.strip(a[1]).get("referencedDecl", {}).get("name") != bv["name"] or cxxast.const_eval(a[2]) != 1 \
+           or cxxast.strip(a[3]).get("referencedDecl", {}).get("name") != n_:
+            raise Untranslatable("File::readBytes: fread arguments")
+        c = cxxast.strip(kids(st[2])[0])
+        if c.get("kind") != "BinaryOperator" or c.get("opcode") != "!=" or \
+           [cxxast.strip(x).get("referencedDecl", {}).get("name") for x in kids(c)] != [nrv["name"], n_] or not throws(kids(st[2])[1]):
+            raise Untranslatable("File::readBytes: short-read test")
+        refs = [x.get("referencedDecl", {}).get("name") for x in cxxast.find(st[3], "DeclRefExpr")]
+        if st[3].get("kind") != "ReturnStmt" or refs != [bv["name"], n_]:
+            raise Untranslatable("File::readBytes: return string(buf, n)")
+        txt = "(* %s *)\n" % srcc(fn)
+        txt += "Definition File_readBytes (n : Z) (c : cur) : rres (list byte) :=\n  if n <=? 0 then RUndef   (* char buf[n]: the bound of a variable-length array must be positive *)\n" \
+               "  else match readBytes (Z.to_nat n) c with Some (b, c') => ROk b c' | None => RThrow end.\n"
+        return txt
+
+    def skipfn():
+        fn = method("skip")
+        ps = [p_ for p_ in kids(fn) if p_.get("kind") == "ParmVarDecl"]
+        fs = calls_named(fn, "fseek")
+        if len(ps) != 1 or len(fs) != 1:
+            raise Untranslatable("File::skip: shape")
+        a = kids(fs[0])
+        if cxxast.strip(a[2]).get("referencedDecl", {}).get("name") != ps[0]["name"] or cxxast.const_eval(a[3]) != 1:
+            raise Untranslatable("File::skip: not fseek(fp_, bytes, SEEK_CUR)")
+        txt = "(* %s *)\n" % srcc(fn)
+        txt += "Definition File_skip (file : list byte) (bytes : Z) (c : cur) : cur := skip file bytes c.\n"
+        return txt
+
+    class St:
+        def __init__(self):
+            self.k = 0            # cursor counter
+            self.ints = {}        # C++ int variable -> Gallina name
+            self.bools = {}
+            self.strs = {}
+            self.vecs = {}        # local vector -> Gallina list name or None (still empty)
+            self.offs = None      # data->localtimes (offsets)
+            self.trs = None       # data->transitions
+
+        def copy(self):
+            o = St()
+            o.__dict__.update({k: (dict(v) if isinstance(v, dict) else v) for k, v in self.__dict__.items()})
+            return o
+
+        def cur(self):
+            return "c%d" % self.k
+
+    class IntEx:
+        def __init__(self, st):
+            self.st = st
+            self.int_mults = []
+
+        def tr(self, n):
+            k = n.get("kind")
+            ks = kids(n)
+            if k in ("ImplicitCastExpr", "ParenExpr", "CStyleCastExpr", "CXXStaticCastExpr"):
+                return self.tr(ks[0])
+            if k == "IntegerLiteral":
+                v = int(n["value"])
+                return "(%d)" % v if v < 0 else str(v)
+            if k == "UnaryExprOrTypeTraitExpr":
+                return str(cxxast.const_eval(n))
+            if k == "DeclRefExpr":
+                nm = n.get("referencedDecl", {}).get("name")
+                if nm in self.st.ints:
+                    return self.st.ints[nm]
+                raise Untranslatable("name %s in an integer expression" % nm)
+            if k == "UnaryOperator" and n.get("opcode") == "-":
+                return "(- %s)" % self.tr(ks[0])
+            if k == "ConditionalOperator":
+                c = cxxast.strip(ks[0]).get("referencedDecl", {}).get("name")
+                if c in self.st.bools:
+                    return "(if %s then %s else %s)" % (self.st.bools[c], self.tr(ks[1]), self.tr(ks[2]))
+            if k == "BinaryOperator" and n.get("opcode") in ("+", "-", "*"):
+                t = "(%s %s %s)" % (self.tr(ks[0]), n["opcode"], self.tr(ks[1]))
+                if n["opcode"] == "*" and base_type(n.get("type", {}).get("qualType", "")) in INT32 + ("int32_t",):
+                    lits = [cxxast.strip(x).get("kind") == "IntegerLiteral" for x in ks]
+                    if not all(lits):
+                        self.int_mults.append(t)
+                return t
+            raise Untranslatable("integer expression kind %s" % k)
+
+        def cond(self, n):
+            n2 = cxxast.strip(n)
+            if n2.get("kind") == "BinaryOperator":
+                op = n2["opcode"]
+                a, b = kids(n2)
+                if op in ("&&", "||"):
+                    return "(%s %s %s)" % (self.cond(a), op, self.cond(b))
+                m = {"!=": "(negb (%s =? %s))", "==": "(%s =? %s)", "<": "(%s <? %s)", "<=": "(%s <=? %s)", ">": "(%s >? %s)", ">=": "(%s >=? %s)"}
+                if op in m:
+                    return m[op] % (self.tr(a), self.tr(b))
+            raise Untranslatable("integer condition")
+
+    def fcall(n):
+        """(method, argument nodes) of `f.m(args)`"""
+        n = cxxast.strip(n)
+        while n.get("kind") in ("CXXBindTemporaryExpr", "MaterializeTemporaryExpr", "ExprWithCleanups", "CXXConstructExpr") and len(kids(n)) == 1:
+            n = cxxast.strip(kids(n)[0])
+        if n.get("kind") == "CXXMemberCallExpr" and kids(n)[0].get("kind") == "MemberExpr":
+            obj = cxxast.strip(kids(kids(n)[0])[0])
+            if obj.get("referencedDecl", {}).get("name") == "f":
+                return kids(n)[0].get("name"), kids(n)[1:]
+        return None, None
+
+    READERS = {"readInt32": "File_readInt32", "readInt64": "File_readInt64", "readUInt8": "File_readUInt8"}
+
+    def string_cmp(n):
+        c = cxxast.strip(n)
+        if c.get("kind") == "CXXOperatorCallExpr":
+            op = cxxast.strip(kids(c)[0]).get("referencedDecl", {}).get("name")
+            v = cxxast.strip(kids(c)[1]).get("referencedDecl", {}).get("name")
+            ls = [x for x in cxxast.walk(kids(c)[2]) if x.get("kind") == "StringLiteral"]
+            if op in ("operator!=", "operator==") and len(ls) == 1:
+                return op, v, [ord(ch) for ch in json_string(ls[0]["value"])]
+        return None, None, None
+
+    def zl(l):
+        return "[" + "; ".join(str(x) for x in l) + "]"
+
+    def block(stmts, st, ind):
+        pad = "  " * ind
+        if not stmts:
+            raise Untranslatable("control reaches the end of a block without return")
+        s_, rest = stmts[0], stmts[1:]
+        k = s_.get("kind")
+        if k == "CompoundStmt":
+            return block(kids(s_) + rest, st, ind)
+        if k in ("ExprWithCleanups", "CXXBindTemporaryExpr") and len(kids(s_)) == 1:
+            return block([kids(s_)[0]] + rest, st, ind)
+        st = st.copy()
+        if k == "DeclStmt":
+            v = kids(s_)[0]
+            if len(kids(s_)) != 1 or v.get("kind") != "VarDecl":
+                raise Untranslatable("declaration")
+            qt = v.get("type", {}).get("qualType", "")
+            bt = base_type(qt)
+            init = kids(v)
+            if "std::vector" in qt:
+                if init and not (cxxast.strip(init[0]).get("kind") == "CXXConstructExpr" and not kids(cxxast.strip(init[0]))):
+                    raise Untranslatable("vector with an initialiser")
+                st.vecs[v["name"]] = None
+                return block(rest, st, ind)
+            m, args = fcall(init[0]) if init else (None, None)
+            if m in READERS and not args:
+                nm = ident(v["name"])
+                c0 = st.cur()
+                st.k += 1
+                st.ints[v["name"]] = nm
+                return pad + "rbind (%s %s) (fun %s %s =>\n" % (READERS[m], c0, nm, st.cur()) + block(rest, st, ind) + ")"
+            if m == "readBytes" and len(args) == 1 and "string" in qt:
+                nm = ident(v["name"])
+                c0 = st.cur()
+                n_ = IntEx(st).tr(args[0])
+                st.k += 1
+                st.strs[v["name"]] = nm
+                return pad + "rbind (File_readBytes %s %s) (fun %s %s =>\n" % (n_, c0, nm, st.cur()) + block(rest, st, ind) + ")"
+            if bt in INT32 + INT64 + ("int32_t", "size_t", "unsigned long") and init:
+                ie = IntEx(st)
+                t = ie.tr(init[0])
+                nm = ident(v["name"])
+                st.ints[v["name"]] = nm
+                guard = ""
+                if ie.int_mults:
+                    guard = pad + "if negb (%s) then DbUndef   (* multiplication carried out in int *)\n" % " && ".join("fits_int %s" % x for x in ie.int_mults) + pad + "else\n"
+                return guard + pad + "let %s := %s in\n" % (nm, t) + block(rest, st, ind)
+            raise Untranslatable("declaration of %s : %s" % (v.get("name"), qt))
+        if k == "IfStmt":
+            ks = kids(s_)
+            op, sv, lit = string_cmp(ks[0])
+            if op == "operator!=" and sv in st.strs and len(ks) == 2 and throws(ks[1]):
+                return pad + "if negb (bytes_eqb %s (chars %s)) then DbThrow\n" % (st.strs[sv], zl(lit)) + pad + "else\n" + block(rest, st, ind)
+            if op == "operator==" and sv in st.strs and len(ks) == 3:
+                return pad + "if bytes_eqb %s (chars %s) then\n" % (st.strs[sv], zl(lit)) + block([ks[1]] + rest, st, ind + 1) + "\n" + pad + "else\n" + block([ks[2]] + rest, st, ind + 1)
+            c = cxxast.strip(ks[0])
+            if len(ks) == 2 and c.get("kind") == "UnaryOperator" and c.get("opcode") == "!" and \
+               cxxast.strip(kids(c)[0]).get("referencedDecl", {}).get("name") in st.bools:
+                inner = kids(ks[1]) if ks[1].get("kind") == "CompoundStmt" else [ks[1]]
+                ok = len(inner) == 1 and [x for x in cxxast.find(inner[0], "MemberExpr") if x.get("name") == "readToEnd"] \
+                    and [x for x in cxxast.find(inner[0], "MemberExpr") if x.get("name") == "tzstring"]
+                if ok:
+                    return pad + "(* if (!v1) data->tzstring = f.readToEnd(): never throws, the footer is not part of the table *)\n" + block(rest, st, ind)
+                raise Untranslatable("if (!flag) with an unrecognised body")
+            if len(ks) == 2:
+                body = kids(ks[1])[0] if ks[1].get("kind") == "CompoundStmt" and len(kids(ks[1])) == 1 else ks[1]
+                if body.get("kind") == "ReturnStmt" and cxxast.strip(kids(body)[0]).get("kind") == "CXXBoolLiteralExpr" and not cxxast.strip(kids(body)[0]).get("value"):
+                    return pad + "if %s then DbFalse\n" % IntEx(st).cond(ks[0]) + pad + "else\n" + block(rest, st, ind)
+            raise Untranslatable("if statement")
+        if k == "CXXMemberCallExpr":
+            me = kids(s_)[0]
+            m = me.get("name")
+            if m == "reserve" and len(kids(s_)) == 2:
+                n_ = IntEx(st).tr(kids(s_)[1])
+                return pad + "if %s <? 0 then DbThrow   (* vector::reserve: std::length_error *)\n" % n_ + pad + "else\n" + block(rest, st, ind)
+            fm, args = fcall(s_)
+            if fm == "skip" and len(args) == 1:
+                e = IntEx(st).tr(args[0])
+                c0 = st.cur()
+                st.k += 1
+                return pad + "let %s := File_skip file %s %s in\n" % (st.cur(), e, c0) + block(rest, st, ind)
+            if fm == "readBytes" and len(args) == 1:
+                c0 = st.cur()
+                n_ = IntEx(st).tr(args[0])
+                st.k += 1
+                return pad + "rbind (File_readBytes %s %s) (fun _ %s =>\n" % (n_, c0, st.cur()) + block(rest, st, ind) + ")"
+            raise Untranslatable("member call %s" % m)
+        if k == "CXXOperatorCallExpr":
+            ks = kids(s_)
+            callee = cxxast.strip(ks[0]).get("referencedDecl", {}).get("name")
+            if callee == "operator=" and len(ks) == 3:
+                fm, args = fcall(ks[2])
+                tgt = cxxast.strip(ks[1])
+                if fm == "readBytes" and len(args) == 1:
+                    c0 = st.cur()
+                    n_ = IntEx(st).tr(args[0])
+                    st.k += 1
+                    if tgt.get("kind") == "DeclRefExpr" and tgt["referencedDecl"]["name"] in st.strs:
+                        nm = st.strs[tgt["referencedDecl"]["name"]]
+                        return pad + "rbind (File_readBytes %s %s) (fun %s %s =>\n" % (n_, c0, nm, st.cur()) + block(rest, st, ind) + ")"
+                    if tgt.get("kind") == "MemberExpr" and tgt.get("name") == "abbreviation":
+                        return pad + "rbind (File_readBytes %s %s) (fun _ %s =>   (* data->abbreviation *)\n" % (n_, c0, st.cur()) + block(rest, st, ind) + ")"
+            raise Untranslatable("operator statement %s" % callee)
+        if k == "ForStmt":
+            fk = s_.get("inner", [])
+            if len(fk) != 5 or not isinstance(fk[0], dict) or not isinstance(fk[2], dict):
+                raise Untranslatable("for statement shape")
+            iv = kids(fk[0])[0]
+            c2 = cxxast.strip(fk[2])
+            inc = cxxast.strip(fk[3])
+            if cxxast.const_eval(kids(iv)[0]) != 0 or c2.get("kind") != "BinaryOperator" or c2.get("opcode") != "<" or \
+               cxxast.strip(kids(c2)[0]).get("referencedDecl", {}).get("name") != iv["name"] or inc.get("opcode") != "++":
+                raise Untranslatable("loop is not for (int i = 0; i < N; ++i)")
+            N = IntEx(st).tr(kids(c2)[1])
+            body = kids(fk[4]) if fk[4].get("kind") == "CompoundStmt" else [fk[4]]
+            c0 = st.cur()
+            # (a) if (flag) v.push_back(f.readInt32()); else v.push_back(f.readInt64());
+            if len(body) == 1 and body[0].get("kind") == "IfStmt" and len(kids(body[0])) == 3:
+                flag = cxxast.strip(kids(body[0])[0]).get("referencedDecl", {}).get("name")
+                vec = None
+                rd = []
+                for br in kids(body[0])[1:]:
+                    pb = [c for c in cxxast.walk(br) if c.get("kind") == "CXXMemberCallExpr" and kids(c)[0].get("name") == "push_back"]
+                    if len(pb) != 1:
+                        raise Untranslatable("loop branch is not a single push_back")
+                    v_ = cxxast.strip(kids(kids(pb[0])[0])[0]).get("referencedDecl", {}).get("name")
+                    vec = v_ if vec in (None, v_) else "?"
+                    fm, args = fcall(kids(pb[0])[1])
+                    if fm not in READERS or args:
+                        raise Untranslatable("pushed value is not a read")
+                    rd.append(READERS[fm])
+                if flag in st.bools and vec in st.vecs and st.vecs[vec] is None:
+                    nm = ident(vec)
+                    st.k += 1
+                    st.vecs[vec] = nm
+                    return pad + "rbind (rmany (if %s then %s else %s) (Z.to_nat %s) %s) (fun %s %s =>\n" % (st.bools[flag], rd[0], rd[1], N, c0, nm, st.cur()) + block(rest, st, ind) + ")"
+                raise Untranslatable("conditional read loop")
+            if len(body) == 2 and body[0].get("kind") == "DeclStmt":
+                lv = kids(body[0])[0]
+                fm, args = fcall(kids(lv)[0]) if kids(lv) else (None, None)
+                b1 = body[1]
+                while b1.get("kind") in ("ExprWithCleanups",) and len(kids(b1)) == 1:
+                    b1 = kids(b1)[0]
+                # (b) T local = f.readUInt8(); v.push_back(local);
+                if fm in READERS and not args and b1.get("kind") == "CXXMemberCallExpr" and kids(b1)[0].get("name") == "push_back":
+                    vec = cxxast.strip(kids(kids(b1)[0])[0]).get("referencedDecl", {}).get("name")
+                    arg = [x.get("referencedDecl", {}).get("name") for x in cxxast.find(kids(b1)[1], "DeclRefExpr")]
+                    if vec in st.vecs and st.vecs[vec] is None and arg == [lv["name"]]:
+                        nm = ident(vec)
+                        st.k += 1
+                        st.vecs[vec] = nm
+                        return pad + "rbind (rmany %s (Z.to_nat %s) %s) (fun %s %s =>\n" % (READERS[fm], N, c0, nm, st.cur()) + block(rest, st, ind) + ")"
+                # (d) int localIdx = localtimes[i]; data->addTransition(trans[i], localIdx);
+                adds = [c for c in cxxast.walk(body[1]) if c.get("kind") == "CXXMemberCallExpr" and kids(c)[0].get("name") == "addTransition"]
+                if len(adds) == 1 and st.offs is not None:
+                    def indexed(n):
+                        n = cxxast.strip(n)
+                        if n.get("kind") == "CXXOperatorCallExpr" and cxxast.strip(kids(n)[0]).get("referencedDecl", {}).get("name") == "operator[]":
+                            v_ = cxxast.strip(kids(n)[1]).get("referencedDecl", {}).get("name")
+                            i_ = cxxast.strip(kids(n)[2]).get("referencedDecl", {}).get("name")
+                            if i_ == iv["name"] and st.vecs.get(v_):
+                                return st.vecs[v_]
+                        return None
+                    idxv = indexed(kids(lv)[0])
+                    a = kids(adds[0])[1:]
+                    tv = indexed(a[0])
+                    a1 = [x.get("referencedDecl", {}).get("name") for x in cxxast.find(a[1], "DeclRefExpr")]
+                    if idxv and tv and a1 == [lv["name"]]:
+                        st.trs = "trs"
+                        return (pad + "match addTransitions %s (firstn (Z.to_nat %s) %s) (firstn (Z.to_nat %s) %s) with   (* Data::addTransition: localtimes.at(idx), utcTime + utcOffset *)\n" % (st.offs, N, tv, N, idxv) +
+                                pad + "| AddFail => DbThrow\n" + pad + "| AddUndefined => DbUndef\n" + pad + "| AddOk trs =>\n" + block(rest, st, ind + 1) + "\n" + pad + "end")
+            # (c) gmtoff = readInt32; isdst = readUInt8; abbrind = readUInt8; data->addLocalTime(gmtoff, isdst, abbrind);
+            if len(body) == 4 and all(b.get("kind") == "DeclStmt" for b in body[:3]):
+                lvs = [kids(b)[0] for b in body[:3]]
+                rds = []
+                for lv in lvs:
+                    fm, args = fcall(kids(lv)[0]) if kids(lv) else (None, None)
+                    if fm not in READERS or args:
+                        raise Untranslatable("ttinfo loop: declaration is not a read")
+                    rds.append(READERS[fm])
+                al = [c for c in cxxast.walk(body[3]) if c.get("kind") == "CXXMemberCallExpr" and kids(c)[0].get("name") == "addLocalTime"]
+                if len(al) == 1:
+                    an = [[x.get("referencedDecl", {}).get("name") for x in cxxast.find(a_, "DeclRefExpr")] for a_ in kids(al[0])[1:]]
+                    if an == [[lv["name"]] for lv in lvs] and st.offs is None:
+                        st.k += 1
+                        st.offs = "offs"
+                        one_ = "(fun c => rbind' (%s c) (fun %s c => rbind' (%s c) (fun _ c => rbind' (%s c) (fun _ c => ROk %s c))))" % (
+                            rds[0], ident(lvs[0]["name"]), rds[1], rds[2], ident(lvs[0]["name"]))
+                        return pad + "rbind (rmany %s (Z.to_nat %s) %s) (fun offs %s =>   (* data->addLocalTime(gmtoff, isdst, abbrind) *)\n" % (one_, N, c0, st.cur()) + block(rest, st, ind) + ")"
+            raise Untranslatable("unrecognised loop body")
+        if k == "ReturnStmt":
+            e = cxxast.strip(kids(s_)[0])
+            if e.get("kind") == "CXXBoolLiteralExpr":
+                if not e.get("value"):
+                    return pad + "DbFalse"
+                if st.offs is None or st.trs is None:
+                    raise Untranslatable("return true before the table is filled")
+                return pad + "DbTrue (mkTz %s %s)" % (st.trs, st.offs)
+            if e.get("kind") == "CallExpr" and cxxast.strip(kids(e)[0]).get("referencedDecl", {}).get("name") == "readDataBlock":
+                flag = cxxast.strip(kids(e)[3])
+                if flag.get("kind") == "CXXBoolLiteralExpr":
+                    return pad + "readDataBlock_g file %s %s" % (st.cur(), "true" if flag.get("value") else "false")
+            raise Untranslatable("return statement")
+        raise Untranslatable("statement kind %s" % k)
+
+    fallback = None
+    try:
+        parts = [scalar("readInt64"), scalar("readInt32"), scalar("readUInt8"), readbytes(), skipfn()]
+        fn = cxxast.function_decl(rel, "muduo::detail::readDataBlock")
+        ps = [p_ for p_ in kids(fn) if p_.get("kind") == "ParmVarDecl"]
+        if len(ps) != 3 or ps[0]["name"] != "f" or ps[2].get("type", {}).get("qualType") != "bool":
+            raise Untranslatable("parameters of readDataBlock")
+        st = St()
+        st.bools[ps[2]["name"]] = ident(ps[2]["name"])
+        body = block(kids(cxxast.body(fn)), st, 1)
+        parts.append("(* %s *)\nDefinition readDataBlock_g (file : list byte) (c0 : cur) (%s : bool) : dbres :=\n%s.\n" % (srcc(fn), ident(ps[2]["name"]), body))
+        fn2 = cxxast.function_decl(rel, "muduo::detail::readTimeZoneFile")
+        top = kids(cxxast.body(fn2))
+        # File f(zonefile); if (f.valid()) { try { ... } catch (std::logic_error& e) { ... } } return false;
+        if len(top) != 3 or top[1].get("kind") != "IfStmt" or top[2].get("kind") != "ReturnStmt" or cxxast.strip(kids(top[2])[0]).get("value"):
+            raise Untranslatable("shape of readTimeZoneFile")
+        fv = kids(top[0])[0]
+        if fv.get("name") != "f" or "File" not in fv.get("type", {}).get("qualType", ""):
+            raise Untranslatable("File f(zonefile)")
+        if not [x for x in cxxast.find(kids(top[1])[0], "MemberExpr") if x.get("name") == "valid"]:
+            raise Untranslatable("if (f.valid())")
+        thenb = kids(top[1])[1]
+        trys = [n for n in kids(thenb) if n.get("kind") == "CXXTryStmt"] if thenb.get("kind") == "CompoundStmt" else []
+        if len(trys) != 1 or len(kids(thenb)) != 1:
+            raise Untranslatable("try block")
+        tk = kids(trys[0])
+        catches = [c for c in tk[1:] if c.get("kind") == "CXXCatchStmt"]
+        if len(catches) != 1 or "logic_error" not in (kids(catches[0])[0].get("type", {}).get("qualType", "")):
+            raise Untranslatable("catch (std::logic_error&)")
+        if any(x.get("kind") in ("ReturnStmt", "CXXThrowExpr") for x in cxxast.walk(catches[0])):
+            raise Untranslatable("the handler returns or rethrows")
+        st2 = St()
+        body2 = block(kids(tk[0]), st2, 2)
+        parts.append("(* %s *)\nDefinition tzif_parse_g (file : list byte) : tzres :=\n  let c0 := mkCur 0 file in\n  match (\n%s) with\n  | DbTrue tb => TzOk tb\n  | DbFalse => TzFail\n  | DbThrow => TzFail     (* catch (std::logic_error&): falls through to `return false` *)\n  | DbUndef => TzUndefined\n  end.\n" % (srcc(fn2), body2))
+        out += parts
+    except Exception as e:  # noqa
+        fallback = str(e)
+        out.append("(* FALLBACK tzif reader: %s *)\n%s" % (fallback.replace("*)", ""), TZIF_TWIN))
+    txt = "\n".join(out) + "\n"
+    path = os.path.join(cxxast.ROOT, "coq/Gen_C20Tzif.v")
+    old = open(path).read() if os.path.exists(path) else None
+    if old != txt:
+        open(path, "w").write(txt)
+    if fallback:
+        print("FALLBACK tzif_parse_g:", fallback)
+    return 0
 
 
 if __name__ == "__main__":
